@@ -70,9 +70,14 @@ async def _lat(lat):
 def _make_factory(node, rec):
     name = node["name"]
 
+    fails = {"left": int(node.get("fail_first", 0))}
+
     def begin(deps):
         t = asyncio.current_task()
         rec.keep.append(t)
+        if fails["left"] > 0:
+            fails["left"] -= 1
+            raise RuntimeError(f"factory boom ({name})")
         c = {"res": name, "task": t, "seq": rec.tick(), "vt0": vclock.vnow(), "vt1": None, "deps": dict(deps), "obj": None}
         rec.calls.append(c)
         return c
